@@ -390,6 +390,8 @@ class CylcWorkflowDAO:
         self.is_public = is_public
         self.conn: Optional[sqlite3.Connection] = None
         self.n_tries = 0
+        # Public DB only: batches whose write failed, oldest first.
+        self.pending_batches: List[list] = []
 
         self.tables = {
             name: CylcWorkflowDAOTable(name, attrs)
@@ -496,6 +498,21 @@ class CylcWorkflowDAO:
             for stmt, stmt_args_list in table.update_queues.items():
                 sql_queue.append((stmt, stmt_args_list))
 
+        if self.is_public:
+            # Retry failed batches in their original order. Leaving them in
+            # the per-table queues would merge them with later batches as
+            # deletes, inserts, updates per table, i.e. reorder statements
+            # across batches (e.g. re-insert a row deleted by a later batch).
+            if sql_queue:
+                self.pending_batches.append(
+                    [(stmt, list(args)) for stmt, args in sql_queue])
+            for table in self.tables.values():
+                table.delete_queues.clear()
+                table.insert_queue.clear()
+                table.update_queues.clear()
+            sql_queue = [
+                item for batch in self.pending_batches for item in batch]
+
         # execute the statements and commit the transaction
         try:
             for stmt, stmt_args in sql_queue:
@@ -561,6 +578,7 @@ class CylcWorkflowDAO:
                 table.delete_queues.clear()
                 table.insert_queue.clear()
                 table.update_queues.clear()
+            self.pending_batches.clear()
             # Report public database retry recovery if necessary
             if self.n_tries:
                 LOG.info(
